@@ -15,6 +15,13 @@ Annotations are generated type-directed from the property's language to nesting
 depth 3, in typing.* spelling, in PEP 585/604 spelling, and mixed; both spellings
 are sent to the model as the same term.  For each annotation the value pool holds
 conforming values and values built to fail at each structural position.
+
+Generations (`nested_annotations`): `bounded` of `bounded`, validated types over a base
+(`validated(lambda x: check_type(x, base) and pred(x))`, descriptor `["ref", base, p]`, model
+term `Ty.refined`) and bounded over those, 1-3 generations, every inner/outer pair of
+inclusive/exclusive bounds on equal and different values, with the values exactly on every
+generation's bounds; the reference checker reads a chain as the conjunction of all
+generations' predicates.
 """
 import functools
 import json
@@ -33,6 +40,8 @@ REQUIRED_THEOREMS = ["SpecVerif.Props.C15." + n for n in (
     "list_elems", "set_elems", "set_order_irrelevant", "dict_keys_values", "tuple_positional", "tuple_arity", "tuple_variadic",
     "type_subclass", "type_subclass_cls", "type_special_forms", "type_float_not_int",
     "validated_pred", "bounded_iff", "bounded_inclusive_exclusive", "bounded_zero", "bounded_base_first",
+    "refined_iff", "generations_iff", "generations_wf", "bounded_generations_iff", "generations_order_irrelevant",
+    "rebound_same_value", "rebound_tightest",
 )]
 RULE = (
     "case = (annotation, spelling, value pool); annotations generated type-directed from {Any, TypeVar, int, float, str, "
@@ -41,14 +50,20 @@ RULE = (
     "combinations over the leaf set exhaustively, deeper ones seeded-random), each in typing.* spelling and in PEP 585/604 "
     "spelling (plus mixed and bare spellings); pool = conforming values + values failing at each structural position "
     "(element i, key, value, tuple slot i, arity +-1, container kind, union alternative, literal near-miss, bound edge -1/0/+1, "
-    "subclass/superclass/unrelated/non-class for Type[T]) + junk; one protocol line per (annotation, value); non-trivial = "
+    "subclass/superclass/unrelated/non-class for Type[T]) + junk; GENERATIONS stream: bounded(bounded(..)) of 2 generations over "
+    "int/float/Union[int,float] with every (inner, outer) pair of {none, ge a, gt a, ge b, gt b} on the lower side and the same on "
+    "the upper side (equal and different values, every inclusive/exclusive combination; full product in thorough, full product over int and every "
+    "per-side pair over the other bases in quick), 3-generation chains bounding one side at one value in all 8 inclusive/exclusive combinations, validated types "
+    "over a base (validated of validated, validated of bounded, bounded of validated) and random chains of 1-3 generations, bare and "
+    "inside List/Optional/Dict/Tuple/Union, with the values exactly on, half a unit and one unit around EVERY generation's bounds as "
+    "int and as float (pool not capped); one protocol line per (annotation, value); non-trivial = "
     "annotation other than Any/TypeVar; distinct = distinct (annotation term, spelling, value) triples"
 )
 EXHAUSTIVE = {"quick": False, "thorough": False}
 ASSUMPTIONS = [
     "value universe of DESIGN.md section 10 item 8: None, bool, int, float (multiples of 0.5, no NaN/inf), str, bytes, list, set, dict, tuple, class objects, "
     "instances of plain user classes and spec classes; no Fraction/Decimal, no user class deriving from a builtin, no __eq__/__lt__ overrides",
-    "predicates of validated(...) are total and pure",
+    "predicates of validated(...) are total and pure; a validated type over a base is the validator `check_type(obj, base) and pred(obj)`",
     "Type[T] with a parameterised generic T means 'subclass of the origin class'; Type[float] is the plain subclass relation",
     "an unconstrained TypeVar accepts every value",
 ]
@@ -72,7 +87,10 @@ PREDICATES = [
     lambda x: isinstance(x, (list, tuple)) and len(x) == 2,
     lambda x: x is not None,
     lambda x: False,
+    lambda x: isinstance(x, (int, float)) and x == int(x),
+    lambda x: isinstance(x, (int, float)) and not isinstance(x, bool),
 ]
+NUM_PREDS = [0, 3, 5, 6]  # predicates that accept some numbers (generations over a numeric base)
 
 
 def setup():
@@ -159,6 +177,13 @@ def _opt(b):
     return "_" if b is None else str(b)
 
 
+def root_of(a):
+    """the base under all generations (bounded / validated-over-a-base)"""
+    while a[0] in ("bnd", "ref"):
+        a = a[1]
+    return a
+
+
 def _bound_value(h, as_float):
     if h is None:
         return None
@@ -238,7 +263,7 @@ def build_ann(a, sp, top=True, in_pep=False):
         return typing.Literal[choices], toks
     if k == "bnd":
         base, btok = build_ann(a[1], sp, False, False)
-        as_float = a[1] == ["float"]
+        as_float = root_of(a) == ["float"] or (len(a) > 6 and bool(a[6]))
         kw = {n: _bound_value(h, as_float) for n, h in zip(("ge", "gt", "le", "lt"), a[2:6]) if h is not None}
         key = json.dumps(a) + "|" + " ".join(btok) + "|" + repr(base)
         klass = _VCACHE.get(key)
@@ -255,6 +280,17 @@ def build_ann(a, sp, top=True, in_pep=False):
             _VCACHE[key] = klass
             _VREG[klass] = ("val", a[1])
         return klass, ["P", str(a[1])]
+    if k == "ref":
+        # a validated type over a base: the validator asks the library's check_type for the base, then the predicate
+        base, btok = build_ann(a[1], sp, False, False)
+        key = json.dumps(a) + "|" + " ".join(btok) + "|" + repr(base)
+        klass = _VCACHE.get(key)
+        if klass is None:
+            pred, chk = PREDICATES[a[2]], _check_type
+            klass = _validated(lambda obj, base=base, pred=pred, chk=chk: bool(chk(obj, base) and pred(obj)), name=f"pred{a[2]}over")
+            _VCACHE[key] = klass
+            _VREG[klass] = ("ref", base, a[2])
+        return klass, ["R"] + btok + [str(a[2])]
     raise ValueError(a)
 
 
@@ -343,7 +379,7 @@ def class_arg(a):
 def numeric(a):
     if a[0] == "float" or a in (["cls", "int"], ["cls", "bool"]):
         return True
-    if a[0] == "bnd":
+    if a[0] in ("bnd", "ref"):
         return numeric(a[1])
     if a[0] == "union":
         return all(numeric(x) for x in a[1])
@@ -352,7 +388,7 @@ def numeric(a):
 
 def wf(a):
     k = a[0]
-    if k in ("list", "set", "tvar", "opt"):
+    if k in ("list", "set", "tvar", "opt", "ref"):
         return wf(a[1])
     if k == "dict":
         return wf(a[1]) and wf(a[2])
@@ -384,6 +420,8 @@ def ref_check(value, ann):
         d = _VREG[ann]
         if d[0] == "val":
             return bool(PREDICATES[d[1]](value))
+        if d[0] == "ref":  # every generation: the base's own conformance and this generation's predicate
+            return ref_check(value, d[1]) and bool(PREDICATES[d[2]](value))
         _, base, kw = d
         if not ref_check(value, base):
             return False
@@ -585,6 +623,8 @@ PRED_GOOD = [
     [["l", [["i", 1], ["i", 2]]], ["t", [["s", "a"], ["n"]]]],
     [["i", 0], ["s", ""], ["l", []]],
     [],
+    [["i", 3], ["f", 4], ["b", 1], ["i", 0]],
+    [["i", 3], ["f", 3], ["i", 0]],
 ]
 PRED_BAD = [
     [["i", 1], ["b", 1], ["f", 4], ["s", ""], ["n"]],
@@ -592,6 +632,8 @@ PRED_BAD = [
     [["l", []], ["t", [["i", 1]]], ["l", [["i", 1], ["i", 2], ["i", 3]]], ["e", [["i", 1], ["i", 2]]]],
     [["n"]],
     [["i", 0], ["n"]],
+    [["f", 3], ["f", -1], ["s", "1"], ["n"]],
+    [["b", 1], ["b", 0], ["s", "1"], ["n"]],
 ]
 
 
@@ -650,22 +692,33 @@ def base_ok(base, v):
         return any(base_ok(b, v) for b in base[1])
     if base[0] == "bnd":
         return bnd_ok(base, v)
+    if base[0] == "ref":
+        return base_ok(base[1], v) and bool(PREDICATES[base[2]](build_val(v)))
     return True
 
 
+def all_bounds(t):
+    """the bound values (halves) of every generation under `t`, through validated-over-a-base, Union and Optional"""
+    if t[0] == "bnd":
+        return [b for b in t[2:6] if b is not None] + all_bounds(t[1])
+    if t[0] in ("ref", "opt"):
+        return all_bounds(t[1])
+    if t[0] == "union":
+        return [b for x in t[1] for b in all_bounds(x)]
+    return []
+
+
 def bnd_points(a):
+    """[(halves, where)]: on, half a unit and one unit around every bound of EVERY generation of the chain"""
     pts = {0, 2, -2}
-    for b in a[2:6]:
-        if b is not None:
-            pts.update({b - 2, b - 1, b, b + 1, b + 2})
-    if a[1][0] == "bnd":
-        pts.update(p for p, _ in bnd_points(a[1]))
+    bounds = all_bounds(a)
+    for b in bounds:
+        pts.update({b - 2, b - 1, b, b + 1, b + 2})
     out = []
     for p in sorted(pts):
         where = "near"
-        for b in a[2:6]:
-            if b is not None and p == b:
-                where = "at0" if b == 0 else "at"
+        if p in bounds:
+            where = "at0" if p == 0 else "at"
         out.append((p, where))
     return out
 
@@ -753,7 +806,27 @@ class Gen:
             return [v for v, _ in bnd_values(a) if bnd_ok(a, v)]
         if k == "val":
             return list(PRED_GOOD[a[1]])
+        if k == "ref":
+            return [v for v in self.ref_candidates(a) if self.classify(a, v)]
         raise ValueError(a)
+
+    def ref_candidates(self, a):
+        """values around a validated-over-a-base type: the base's conforming values, the predicate's own good and
+        bad values and, over a numeric chain, the points on and around every generation's bounds"""
+        out = list(self.goods(a[1])) + list(PRED_GOOD[a[2]]) + list(PRED_BAD[a[2]])
+        if numeric(a) or all_bounds(a):
+            out += [v for v, _ in bnd_values(a)]
+        seen, res = set(), []
+        for v in out:
+            key = json.dumps(v)
+            if key not in seen:
+                seen.add(key)
+                res.append(v)
+        return res
+
+    def classify(self, a, v):
+        """generator-side label only (good/bad): the reference reading of the annotation"""
+        return ref_check(build_val(v), build_ann(a, Sp("t"))[0])
 
     def class_goods(self, t):
         k = t[0]
@@ -918,6 +991,15 @@ class Gen:
             return out
         if k == "val":
             return [(v, "pred") for v in PRED_BAD[a[1]]]
+        if k == "ref":
+            base_real = build_ann(a[1], Sp("t"))[0]
+            out = []
+            for v in self.ref_candidates(a):
+                if not self.classify(a, v):
+                    out.append((v, "gen-pred" if ref_check(build_val(v), base_real) else "gen-base"))
+            have = {json.dumps(v) for v, _ in out}
+            out += [(v, "gen-base/" + why) for v, why in self.bads(a[1])[:6] if json.dumps(v) not in have]
+            return out
         raise ValueError(a)
 
     # -- the pool of one annotation -----------------------------------------
@@ -985,9 +1067,170 @@ BND_SEEDS = [
 ]
 
 
+# ---------------------------------------------------------------------------
+# generations: bounded of bounded, validated over a base, bounded over validated
+# ---------------------------------------------------------------------------
+
+NUM_BASES = [
+    # (base, the two lower-bound values, the two upper-bound values), in halves; each grid has a lower and an
+    # upper bound on the same value and a bound at 0
+    (["cls", "int"], (0, 2), (4, 2)),
+    (["float"], (0, 1), (3, 1)),
+    (["union", [["cls", "int"], ["float"]]], (0, 2), (4, 2)),
+    (["float"], (0, 2), (4, 2)),
+    (["cls", "int"], (-2, 0), (0, 2)),
+    (["cls", "bool"], (0, 2), (2, 0)),
+]
+
+
+def side_specs(a, b):
+    """one generation's declaration for one side: nothing, inclusive or exclusive at either value -> (incl, excl)"""
+    return [(None, None), (a, None), (None, a), (b, None), (None, b)]
+
+
+def bnd_over(base, lo, up, fl=0):
+    a = ["bnd", base, lo[0], lo[1], up[0], up[1]]
+    return a + [1] if fl else a
+
+
+def gen_chain(rng, n=None, base_grid=None, preds=True):
+    """a random chain of `n` generations over a numeric base (values of all generations from one small grid, so equal
+    values on the same side with different inclusiveness are frequent)"""
+    base, lows, ups = base_grid or rng.choice(NUM_BASES)
+    n = n or rng.choice([2, 2, 3])
+    a = base
+    for _ in range(n):
+        if preds and rng.random() < 0.25:
+            a = ["ref", a, rng.choice(NUM_PREDS)]
+        else:
+            lo, up = rng.choice(side_specs(*lows)), rng.choice(side_specs(*ups))
+            if lo == (None, None) and up == (None, None) and rng.random() < 0.8:
+                lo = rng.choice(side_specs(*lows)[1:])
+            a = bnd_over(a, lo, up, fl=int(rng.random() < 0.15))
+    return a
+
+
+REF_BASES = [
+    ["cls", "int"], ["float"], ["cls", "str"], ["cls", "bool"], ["cls", "object"], ["any"], ["none"], ["cls", "A"],
+    ["list", ["cls", "int"]], ["tuple", [["cls", "int"], ["cls", "str"]]], ["tvar", ["cls", "int"]], ["opt", ["cls", "int"]],
+    ["union", [["cls", "int"], ["cls", "str"]]], ["union", [["float"], ["none"]]], ["lit", [["i", 1], ["i", 2], ["s", "ab"]]],
+    ["dict", ["cls", "str"], ["cls", "int"]], ["set", ["cls", "int"]],
+    ["bnd", ["cls", "int"], 0, None, None, None], ["bnd", ["float"], None, 0, 3, None],
+]
+
+
+def gen_ref(rng):
+    """a validated type over a base: over a plain validated type, over a bounded type, over a structural annotation,
+    over another validated-over-a-base (up to 3 generations)"""
+    r = rng.random()
+    if r < 0.3:
+        base = ["val", rng.randrange(len(PREDICATES))]
+    elif r < 0.75:
+        base = json.loads(json.dumps(rng.choice(REF_BASES)))
+    else:
+        base = gen_chain(rng, n=rng.choice([1, 2]))
+    a = ["ref", base, rng.randrange(len(PREDICATES))]
+    if rng.random() < 0.25:
+        a = ["ref", a, rng.randrange(len(PREDICATES))]
+    return a
+
+
+def nested_annotations(tier, rng):
+    """[(annotation, origin)] of the generations stream (see RULE)"""
+    import itertools
+
+    quick = tier == "quick"
+    out = []
+    # (a) two bounded generations: every (inner, outer) pair per side; the other side sampled (quick) / full product
+    for gi, (base, lows, ups) in enumerate(NUM_BASES[: 3 if quick else len(NUM_BASES)]):
+        lp = list(itertools.product(side_specs(*lows), repeat=2))
+        up = list(itertools.product(side_specs(*ups), repeat=2))
+        if quick and gi > 0:
+            combos = [(x, rng.choice(up)) for x in lp for _ in range(2)] + [(rng.choice(lp), y) for y in up for _ in range(2)]
+        else:
+            combos = list(itertools.product(lp, up))
+        for (l1, l2), (u1, u2) in combos:
+            out.append((bnd_over(bnd_over(base, l1, u1), l2, u2), "gen-d2"))
+    # (b) three generations bounding ONE side at ONE value: all 8 inclusive/exclusive combinations (+ a validated
+    #     generation in between for half of them)
+    d3 = []
+    for base, lows, ups in NUM_BASES[:4]:
+        for side, val in [(0, lows[0]), (0, lows[1]), (1, ups[0]), (1, ups[1])]:
+            for kinds in itertools.product((0, 1), repeat=3):
+                a = base
+                for j, excl in enumerate(kinds):
+                    spec = (None, val) if excl else (val, None)
+                    a = bnd_over(a, spec if side == 0 else (None, None), spec if side == 1 else (None, None))
+                    if j < 2 and rng.random() < 0.25:
+                        a = ["ref", a, rng.choice(NUM_PREDS)]
+                d3.append((a, "gen-d3-same"))
+    out += rng.sample(d3, 40) if quick else d3
+    # (c) random chains of 1-3 generations (bounded and validated mixed)
+    for _ in range(110 if quick else 4000):
+        out.append((gen_chain(rng, n=rng.choice([1, 2, 3, 3])), "gen-chain"))
+    # (d) validated over a base, systematically: over every plain validated type, over every base of REF_BASES
+    refs = [["ref", ["val", q], p] for q in range(len(PREDICATES)) for p in range(len(PREDICATES))]
+    refs += [["ref", json.loads(json.dumps(b)), p] for b in REF_BASES for p in range(len(PREDICATES))]
+    refs += [["ref", ["ref", ["val", 3], 0], 5], ["ref", ["ref", ["ref", ["cls", "int"], 6], 0], 3],
+             ["bnd", ["ref", ["cls", "int"], 0], 0, None, None, 8], ["bnd", ["ref", ["float"], 5], None, 0, 4, None],
+             ["ref", ["bnd", ["ref", ["cls", "int"], 6], 0, None, None, None], 0]]
+    out += [(a, "gen-validated") for a in (rng.sample(refs, 50) if quick else refs)]
+    for _ in range(30 if quick else 800):
+        out.append((gen_ref(rng), "gen-validated"))
+    # (f) a generation over a UNION of bounded alternatives (the same value meets several generated types inside one
+    #     validator call): alternatives over int / float / the same base, overlapping, touching and disjoint intervals
+    uni = []
+    for (b1, lows1, ups1), (b2, lows2, ups2) in [(NUM_BASES[0], NUM_BASES[1]), (NUM_BASES[0], NUM_BASES[0]), (NUM_BASES[3], NUM_BASES[4])]:
+        for s1 in side_specs(*lows1)[1:] + side_specs(*ups1)[1:]:
+            for s2 in side_specs(*lows2)[1:] + side_specs(*ups2)[1:]:
+                alt1 = bnd_over(b1, s1, (None, None)) if s1 in side_specs(*lows1) else bnd_over(b1, (None, None), s1)
+                alt2 = bnd_over(b2, s2, (None, None)) if s2 in side_specs(*lows2) else bnd_over(b2, (None, None), s2)
+                if alt1 == alt2:
+                    continue
+                u = ["union", [alt1, alt2]]
+                r = rng.random()
+                if r < 0.4:
+                    uni.append(["ref", u, rng.choice(NUM_PREDS)])
+                elif r < 0.8:
+                    uni.append(bnd_over(u, rng.choice(side_specs(*lows1)), rng.choice(side_specs(*ups2))))
+                else:
+                    uni.append(["ref", ["opt", alt1], rng.choice([3, 3, 0, 6])])
+    out += [(a, "gen-union") for a in (rng.sample(uni, 40) if quick else uni)]
+    # (e) a sample of all of these inside the structural constructors
+    inner = [a for a, _ in out]
+    for _ in range(40 if quick else 1200):
+        x = json.loads(json.dumps(rng.choice(inner)))
+        k = rng.choice(["list", "opt", "dict", "tuple", "union", "set", "tvar", "type"])
+        if k in ("list", "opt", "set", "tvar", "type"):
+            a = [k, x]
+        elif k == "dict":
+            a = ["dict", ["cls", "str"], x]
+        elif k == "tuple":
+            a = ["tuple", [["cls", "str"], x]]
+        else:
+            a = ["union", [["cls", "str"], x]]
+        out.append((a, "gen-wrapped"))
+    return out
+
+
+def has_union(a):
+    if a[0] in ("union", "opt"):
+        return True
+    if a[0] in ("bnd", "ref", "list", "set", "tvar", "type"):
+        return has_union(a[1])
+    if a[0] == "dict":
+        return has_union(a[1]) or has_union(a[2])
+    if a[0] == "tuple":
+        return any(has_union(x) for x in a[1])
+    return False
+
+
 def gen_bnd(rng):
-    if rng.random() < 0.4:
+    r = rng.random()
+    if r < 0.3:
         return json.loads(json.dumps(rng.choice(BND_SEEDS)))
+    if r < 0.5:
+        return gen_chain(rng)
     base = rng.choice(
         [["cls", "int"], ["cls", "int"], ["float"], ["float"], ["cls", "bool"], ["union", [["cls", "int"], ["float"]]]]
     )
@@ -1015,21 +1258,23 @@ def gen_leaf(rng, classarg=False):
             return list(rng.choice(PLAIN_LEAVES))
         if r < 0.93:
             return gen_bnd(rng)
-        return ["val", rng.randrange(5)]
+        return ["val", rng.randrange(len(PREDICATES))]
     if r < 0.55:
         return list(rng.choice(PLAIN_LEAVES))
     if r < 0.70:
         return json.loads(json.dumps(rng.choice(LITS)))
-    if r < 0.90:
+    if r < 0.88:
         return gen_bnd(rng)
-    return ["val", rng.randrange(5)]
+    if r < 0.94:
+        return gen_ref(rng)
+    return ["val", rng.randrange(len(PREDICATES))]
 
 
 CONSTRUCTORS = ["list", "list", "set", "dict", "dict", "tuple", "tuple", "tvar", "type", "union", "union", "opt"]
 
 
 def hashable_friendly(a):
-    return a[0] in ("any", "tv", "float", "none", "cls", "lit", "bnd", "val", "type") or (
+    return a[0] in ("any", "tv", "float", "none", "cls", "lit", "bnd", "val", "type") or (a[0] == "ref" and hashable_friendly(a[1])) or (
         a[0] in ("tuple", "union") and all(hashable_friendly(x) for x in a[1])
     ) or (a[0] in ("tvar", "opt") and hashable_friendly(a[1]))
 
@@ -1097,7 +1342,7 @@ def depth_of(a):
 
 def depth1_annotations(rng):
     """every constructor applied to every leaf of a fixed leaf set (+ all pairs for the binary ones, sampled)"""
-    leaves = [list(x) for x in PLAIN_LEAVES] + LITS[:4] + BND_SEEDS[:6] + [["val", i] for i in range(5)]
+    leaves = [list(x) for x in PLAIN_LEAVES] + LITS[:4] + BND_SEEDS[:6] + [["val", i] for i in range(len(PREDICATES))]
     for x in leaves:
         yield x
     for x in LITS[4:] + BND_SEEDS[6:]:
@@ -1129,7 +1374,10 @@ def malformed_annotation(rng):
     elif r < 0.6:
         core = ["type", ["union", [rng.choice([["cls", "int"], ["cls", "A"], ["none"]]), json.loads(json.dumps(rng.choice(LITS)))]]]
     else:
-        base = rng.choice([["any"], ["cls", "str"], ["cls", "object"], ["list", ["cls", "int"]], ["tv"], ["opt", ["cls", "int"]]])
+        # bounded over a non-numeric base, incl. a plain validated type and a validated type over a non-numeric base
+        base = rng.choice([["any"], ["cls", "str"], ["cls", "object"], ["list", ["cls", "int"]], ["tv"], ["opt", ["cls", "int"]],
+                           ["val", 0], ["val", 3], ["val", 1], ["ref", ["any"], 3], ["ref", ["cls", "str"], 1],
+                           ["bnd", ["val", 3], 0, None, None, None]])
         core = ["bnd", base, rng.choice([None, 0, 2]), None, rng.choice([None, 6]), None]
     r = rng.random()
     if r < 0.4:
@@ -1209,6 +1457,10 @@ def gen_cases(tier, rng):
         d2 = rng.sample(d2, 120)
     for a in d2:
         yield from make_cases(a, rng, cap, "depth2-unary", modes=("t", "p"))
+    # 1c. generations: bounded of bounded, validated over a base (pool NOT capped: the values on every generation's
+    #     bounds must all be there)
+    for a, origin in nested_annotations(tier, rng):
+        yield from make_cases(a, rng, 96, origin, modes=("t", "p") if has_union(a) else ("t",))
     # 2. bare spellings
     for a in (["list", ["any"]], ["set", ["any"]], ["dict", ["any"], ["any"]], ["tvar", ["any"]], ["type", ["any"]],
               ["opt", ["list", ["any"]]], ["dict", ["cls", "str"], ["list", ["any"]]]):
@@ -1254,7 +1506,7 @@ def tags(case, real):
 
 
 MANIFEST_ENTRY = {
-    "level_text": "Lean 4 proof, by structural induction over annotations of any depth, that the model of check_type (branch order of type_checking.py, _check_subclass, the isinstance hook of validated/bounded, every point where the Python code can raise) never raises and returns exactly the structural conformance relation of the property statement on every well-formed annotation and every value; named corollaries for int-for-float, unions, Literal equality, list/set elements, dict keys and values, positional and variadic tuples, Type[T] subclassing and inclusive/exclusive bounds including a bound of 0. The model is tied to /repo on every run by evaluating the real check_type and the model on generated (annotation, value) pairs (depth <= 3, typing and PEP 585/604 spellings against the same model term, values failing at each structural position) and by comparing the Lean specification with an independent Python reference checker.",
+    "level_text": "Lean 4 proof, by structural induction over annotations of any depth, that the model of check_type (branch order of type_checking.py, _check_subclass, the isinstance hook of validated/bounded, every point where the Python code can raise) never raises and returns exactly the structural conformance relation of the property statement on every well-formed annotation and every value; named corollaries for int-for-float, unions, Literal equality, list/set elements, dict keys and values, positional and variadic tuples, Type[T] subclassing, inclusive/exclusive bounds including a bound of 0, and generations (bounded of bounded, validated types over a base, in any number and order: accepted iff the base conforms and EVERY generation's predicate holds; on equal bound values the exclusive declaration decides). The model is tied to /repo on every run by evaluating the real check_type and the model on generated (annotation, value) pairs (depth <= 3, typing and PEP 585/604 spellings against the same model term, values failing at each structural position; a generations stream with every inner/outer pair of inclusive/exclusive bounds on equal and different values and the values exactly on every generation's bounds) and by comparing the Lean specification with an independent Python reference checker.",
     "level_note": "Trusted: Lean kernel; axioms propext/Classical.choice/Quot.sound only; the hand-written model, the value universe (no Fraction/Decimal/NaN, no user subclasses of builtins, total predicates) and the correspondence harness. The theorems are about the model; the per-run correspondence is what ties them to the code.",
     "technique": "Lean 4 proof of IMPL = SPEC by mutual structural induction over a hand-written model; differential correspondence against the real check_type; independent reference-checker oracle",
 }
